@@ -60,7 +60,11 @@ struct C05Vis {
 			}); break; }
 		case 9: {  // convertible element type
 			with_source<D, T2>(sk, m.size, 5, [&](auto& src, MV const&, T2*, L) { run(src_name(sk)); v = src; check_image(K, m, snap, [&](L k) { return mkval<T2>(5, k); }); }); break; }
-		case 3: { with_source<D, T>(sk, m.size, 5, [&](auto& src, MV const&, T*, L) { run(src_name(sk)); if(rb) { auto&& w = rebased(v); auto&& sw = rebased(src); count("re-based-assignments"); w.elements() = sw.elements(); } else { v.elements() = src.elements(); } check_image(K, m, snap, srcval); }); break; }
+		case 3: { with_source<D, T>(sk, m.size, 5, [&](auto& src, MV const&, T*, L) { run(src_name(sk)); if(rb) { auto&& w = rebased(v); auto&& sw = rebased(src); count("re-based-assignments"); w.elements() = sw.elements(); }
+			else if(m.size[0] >= 2 && g->chance(1, 3)) {  // the same assignment written as a loop over an elements() iterator OBJECT that was bound to another range (other extents) before and then copy-assigned
+				auto&& els = v.elements(); auto&& w = v.sliced(0, m.size[0] - 1); auto&& wels = w.elements(); auto sit = src.elements().begin();
+				if constexpr(std::is_same_v<decltype(wels.begin()), decltype(els.begin())>) { auto it = wels.begin(); it = els.begin(); for(L k = 0; k < N; ++k) { *it = *sit; ++it; ++sit; } count("elements-iterator-rebound-writes"); } else { v.elements() = src.elements(); } }
+			else { v.elements() = src.elements(); } check_image(K, m, snap, srcval); }); break; }
 		case 4: { if constexpr(D == 1) { run("value"); T x = mkval<T>(7, 1); v.fill(x); check_image(K, m, snap, [&](L) { return x; }); } else { run("value(elements)"); T x = mkval<T>(7, 1); std::fill(v.elements().begin(), v.elements().end(), x); check_image(K, m, snap, [&](L) { return x; }); } break; }
 		case 5: {  // swap of two views of equal extents
 			with_source<D, T>(sk, m.size, 5, [&](auto& src, MV const& sm, auto* sbase, L sn) { using ST = std::decay_t<decltype(*sbase)>;
